@@ -104,4 +104,19 @@ def run(check, ctx):
              extracted="lock = %s" % lk, expected="re-entrant lock (EccPoint.__init__ re-enters the registry while a curve is being decorated)")
     from . import c19_extra
     c19_extra.run(check, ctx)
+    # ---- C side ------------------------------------------------------------------------------------
+    from .. import crules
+    cdb = ctx.cdb
+    crules.p1_no_writable_globals(check, cdb)
+    F = cdb.functions()
+    ncopy = 0
+    for name in sorted(F):
+        if name.endswith("_copy") and name not in ("mont_copy", "ec_ws_copy", "ed448_copy"):
+            f = F[name][0]
+            if f.linkage != "external":
+                continue
+            crules.copy_whole_state(check, cdb, f.tu.src, name)
+            ncopy += 1
+    if ncopy < 10:
+        raise AnalysisError("only %d native *_copy functions found (confirmed: 12)" % ncopy)
     check.undecided.append("concurrent use of the same object; atomicity assumptions of CPython containers; GMP's own thread safety")
